@@ -93,7 +93,7 @@ def cases(run):
     scopes = [(1, 6, True), (2, 4, True), (2, 6, False), (3, 3, False)] if quick else \
              [(1, 9, True), (2, 6, True), (3, 3, True), (3, 5, False), (4, 2, False)]
     EXHAUSTIVE_NOTE = ("every exon layout with " + ", ".join(
-        f"{k} exon(s) of length 1..{m}" + (" [every window (start,end) over span+-1, with and without expand]" if w else
+        f"{k} exon(s) of length 1..{m}" + (" [every window start<end over span+-1 and three empty windows, with and without expand]" if w else
                                           " [no window + 6 random windows]")
         for k, m, w in scopes) + "; gaps 0/1/2 bp; strands + and -; all 3^k frame vectors")
     seen = set()
